@@ -30,7 +30,17 @@ func zzSpecOf(m map[string]interface{}, defs map[string]interface{}, depth int) 
 		default:
 			zzvrt.Unreachable("spec builder: unsupported $ref " + ref)
 		}
-		dm, ok := defs[name].(map[string]interface{})
+		// "#/$defs/X" names X of the "$defs" block, "#/definitions/X" X of the "definitions" block;
+		// a document that has only one of the blocks serves both spellings from it
+		first, second := "$defs", "definitions"
+		if strings.HasPrefix(ref, "#/definitions/") {
+			first, second = second, first
+		}
+		block, _ := defs[first].(map[string]interface{})
+		if block == nil {
+			block, _ = defs[second].(map[string]interface{})
+		}
+		dm, ok := block[name].(map[string]interface{})
 		if !ok {
 			zzvrt.Unreachable("spec builder: no definition " + name)
 		}
@@ -180,6 +190,12 @@ var zzSchemaTexts = []string{
 	   "nothing": {"type": "null"},
 	   "counts": {"type": "object", "additionalProperties": {"type": "integer"}}},
 	  "required": ["code"]}`,
+	// 4: a document halfway through a draft migration: BOTH definition blocks, one name in both
+	// with different content; every reference is spelled "#/$defs/..." and means that block
+	`{"$id": "https://example.com/t4", "type": "object", "properties": {
+	   "port": {"$ref": "#/$defs/port"}, "adminPort": {"$ref": "#/$defs/port"}, "label": {"$ref": "#/$defs/label"}},
+	  "$defs": {"port": {"type": "integer", "minimum": 1, "maximum": 65535}, "label": {"type": "string", "maxLength": 8}},
+	  "definitions": {"port": {"type": "integer", "minimum": 1024, "maximum": 49151}, "legacyOnly": {"type": "boolean"}}}`,
 }
 
 // HarnessParsed: parse (real parser) -> generate -> emitted code on a symbolic document,
@@ -192,10 +208,7 @@ func HarnessParsed() {
 	if err := json.Unmarshal([]byte(text), &generic); err != nil {
 		zzvrt.Unreachable("schema text is not JSON: " + err.Error())
 	}
-	defs, _ := generic["$defs"].(map[string]interface{})
-	if defs == nil {
-		defs, _ = generic["definitions"].(map[string]interface{})
-	}
+	defs := map[string]interface{}{"$defs": generic["$defs"], "definitions": generic["definitions"]}
 	spec := zzSpecOf(generic, defs, 0)
 	var sch schemas.Schema
 	if err := json.Unmarshal([]byte(text), &sch); err != nil {
@@ -243,6 +256,9 @@ func HarnessParsed() {
 	zzvrt.Check("C05.parsed.bounds-and-multiple-of", zzvrt.Implies(zzvrt.And(f.others("num"), f.mult), zzvrt.Iff(accepted, f.num)))
 	zzvrt.Check("C08.parsed.enum", zzvrt.Implies(f.others("enum"), zzvrt.Iff(accepted, f.enum)))
 	zzvrt.Check("C13.parsed.spelling-does-not-matter", zzvrt.Iff(accepted, f.all()))
+	if strings.Contains(text, "$ref") {
+		zzvrt.Check("C10.parsed.each-reference-means-the-definition-it-names", zzvrt.Iff(accepted, f.all()))
+	}
 }
 
 // zzCorpus: schema documents that combine the composition keywords with references in the ways
